@@ -13,8 +13,9 @@ def main():
         if not ok:
             print(p.stdout[-2000:]); bad += 1
     try:
-        vplib.build_harness()
-        print("harness build ok")
+        for c in sorted(os.listdir(os.path.join(vplib.HARNESS, "cmd"))):
+            vplib.build_harness(c)
+            print("harness build ok: %s" % c)
     except vplib.Machinery as e:
         print(e); bad += 1
     sys.exit(1 if bad else 0)
